@@ -93,25 +93,64 @@ Qed.
 Lemma RTb_zero : forall A m k e (d d' : dec A) x, RTb m k e d x -> RTb m 0 e d' x.
 Proof. intros A m k e d d' x [bs [E [L _]]]. exists bs. split; [exact E|]. split; [exact L|]. intros Hl. lia. Qed.
 
+(* ------------------------------------------------------------------ nesting depth of sub-values *)
+Definition ldepth (l : list val) : nat := fold_right (fun x a => Nat.max (vdepth x) a) 0%nat l.
+Lemma vdepth_slice : forall l, vdepth (VSlice (Some l)) = ldepth l.
+Proof.
+  intros l. change (vdepth (VSlice (Some l))) with
+    ((fix go (l : list val) : nat := match l with [] => 0%nat | x :: r => Nat.max (vdepth x) (go r) end) l).
+  induction l as [|x r IH]; [reflexivity|]. cbn [ldepth fold_right]. fold (ldepth r). rewrite <- IH. reflexivity.
+Qed.
+Lemma vdepth_struct : forall l, vdepth (VStruct l) = ldepth l.
+Proof.
+  intros l. change (vdepth (VStruct l)) with
+    ((fix go (l : list val) : nat := match l with [] => 0%nat | x :: r => Nat.max (vdepth x) (go r) end) l).
+  induction l as [|x r IH]; [reflexivity|]. cbn [ldepth fold_right]. fold (ldepth r). rewrite <- IH. reflexivity.
+Qed.
+Lemma ldepth_in : forall l x, In x l -> (vdepth x <= ldepth l)%nat.
+Proof.
+  induction l as [|y r IH]; intros x Hin; [destruct Hin|]. cbn [ldepth fold_right]. fold (ldepth r).
+  destruct Hin as [->|Hin]; [lia|]. specialize (IH x Hin). lia.
+Qed.
+Lemma vdepth_leaves : forall p x, In x (leaves p) -> (vdepth x <= vdepth p)%nat.
+Proof.
+  induction p using val_ind'; intros x Hin;
+    try (cbn [leaves] in Hin; destruct Hin as [<-|[]]; apply le_n).
+  - destruct Hin.
+  - rewrite leaves_slice in Hin. apply in_flat_map in Hin. destruct Hin as [y [Hy Hx]].
+    rewrite Forall_forall in H. specialize (H y Hy x Hx). rewrite vdepth_slice. pose proof (ldepth_in l y Hy). lia.
+Qed.
+
+(* decode at f levels left = one level of ua.decode over what is nested further down *)
+Definition lrec (reg : list (Z * Z * ty)) (f : nat) : ty -> dec val :=
+  match f with O => fun _ => fail EOther | S f' => decode reg f' end.
+Definition lallow (f : nat) : bool := match f with O => false | S _ => true end.
+Lemma decode_eq : forall reg f, decode reg f = dec_level reg (lrec reg f) (lallow f).
+Proof. intros reg [|f]; reflexivity. Qed.
+
 Section All.
   Variable reg : list (Z * Z * ty).
 
-  Definition RTk (t : ty) (v : val) : Prop :=
-    forall k, RTb (minsize t) k (encode reg t v) (decode reg k t) (rnorm reg t v).
+  (* v round-trips through the decoder with f nesting levels left *)
+  Definition RTd (f : nat) (t : ty) (v : val) : Prop :=
+    forall k, RTb (minsize t) k (encode reg t v) (decode reg f t) (rnorm reg t v).
 
-  Lemma generic_RTk : forall t v, leaf_ty t = true -> rwf reg t v = true -> RTk t v.
+  Lemma generic_RTd : forall f t v, leaf_ty t = true -> rwf reg t v = true -> RTd f t v.
   Proof.
-    intros t v Hl Hw k. destruct (rwf_leaf reg t v Hl) as [E1 [E2 Hg]]. rewrite E1 in Hw. rewrite E2.
-    destruct (roundtrip_generic reg (pred k) t Hg v Hw) as [bs [E [L D]]].
-    exists bs. split; [exact E|]. split; [exact L|]. intros Hk rest. destruct k as [|f]; [lia|]. apply D.
+    intros f t v Hl Hw k. destruct (rwf_leaf reg t v Hl) as [E1 [E2 Hg]]. rewrite E1 in Hw. rewrite E2.
+    destruct (roundtrip_generic reg 0 t Hg v Hw) as [bs [E [L D]]].
+    exists bs. split; [exact E|]. split; [exact L|]. intros _ rest. specialize (D rest).
+    (* leaf descriptors do not look at the nesting level *)
+    replace (decode reg f t) with (decode reg 1 t); [exact D|].
+    rewrite !decode_eq. destruct t; try discriminate; try reflexivity. destruct c; try discriminate; reflexivity.
   Qed.
 
-  Lemma RTb_struct : forall k fs vs,
-    (forall t x, In x vs -> rwf reg t x = true -> RTb (minsize t) k (encode reg t x) (decode reg k t) (rnorm reg t x)) ->
+  Lemma RTb_struct : forall k (D : ty -> dec val) fs vs,
+    (forall t x, In x vs -> rwf reg t x = true -> RTb (minsize t) k (encode reg t x) (D t) (rnorm reg t x)) ->
     rwf_struct reg fs vs = true ->
-    RTb (minsize (TStruct fs)) k (enc_struct (encode reg) fs vs) (dec_fields (map (decode reg k) fs)) (rnorm_struct reg fs vs).
+    RTb (minsize (TStruct fs)) k (enc_struct (encode reg) fs vs) (dec_fields (map D fs)) (rnorm_struct reg fs vs).
   Proof.
-    intros k fs. induction fs as [|t fs' IH]; intros vs Hrec Hw.
+    intros k D fs. induction fs as [|t fs' IH]; intros vs Hrec Hw.
     - destruct vs; [|discriminate]. cbn. apply RTb_ret.
     - destruct vs as [|x vs']; [discriminate|]. cbn [rwf_struct] in Hw. fold (rwf_struct reg) in Hw.
       apply andb_true in Hw. destruct Hw as [Hx Hr].
@@ -128,25 +167,26 @@ Section All.
     do 5 (destruct p as [p|p|]; try (cbn; lia)).
   Qed.
 
-  Theorem roundtrip_all_S : forall n t v, (vsize v < n)%nat -> rwf reg t v = true ->
-    forall f, RTb (minsize t) (S f) (encode reg t v) (decode reg (S f) t) (rnorm reg t v).
+  Theorem roundtrip_depth : forall n t v, (vsize v < n)%nat -> rwf reg t v = true ->
+    forall f, (vdepth v <= f)%nat -> RTd f t v.
   Proof.
-    induction n as [|n IHn]; intros t v Hn Hw f; [lia|].
-    assert (IH : forall t' v', (vsize v' < n)%nat -> rwf reg t' v' = true ->
-                   forall k, RTb (minsize t') k (encode reg t' v') (decode reg k t') (rnorm reg t' v')).
-    { intros t' v' Hs Hw' k. destruct k as [|k]; [eapply RTb_zero|]; apply (IHn t' v' Hs Hw'). Unshelve. exact 0%nat. }
+    induction n as [|n IHn]; intros t v Hn Hw f Hd; [lia|].
+    assert (IH : forall t' v', (vsize v' < n)%nat -> rwf reg t' v' = true -> forall f', (vdepth v' <= f')%nat ->
+                   forall k, RTb (minsize t') k (encode reg t' v') (decode reg f' t') (rnorm reg t' v')).
+    { intros t' v' Hs Hw' f' Hd' k. apply (IHn t' v' Hs Hw' f' Hd'). }
     destruct t.
-    1-6: (match goal with |- RTb _ _ (encode _ ?t _) _ _ => apply (generic_RTk t v eq_refl Hw) end).
+    1-6: (match goal with |- RTd _ ?t _ => apply (generic_RTd f t v eq_refl Hw) end).
     - (* slice *)
-      destruct v; try discriminate. destruct l as [l|].
+      intros k. destruct v; try discriminate. destruct l as [l|].
       + change (rwf reg (TSlice t) (VSlice (Some l))) with
           (Nat.leb 1 (minsize t) && (zlen l <=? max_int32) &&
            (fix go (l : list val) : bool := match l with [] => true | x :: r => rwf reg t x && go r end) l) in Hw.
         rewrite rwf_list_forall in Hw. bool_hyps. apply Nat.leb_le in H.
         rewrite forallb_forall in H0.
-        assert (Hall : Forall (fun x => RTb (minsize t) (S f) (encode reg t x) (decode reg (S f) t) (rnorm reg t x)) l).
-        { apply Forall_forall. intros x Hx. apply IH; [|apply H0; exact Hx].
-          rewrite vsize_slice in Hn. pose proof (lsize_in l x Hx). lia. }
+        assert (Hall : Forall (fun x => RTb (minsize t) k (encode reg t x) (decode reg f t) (rnorm reg t x)) l).
+        { apply Forall_forall. intros x Hx. apply IH; [|apply H0; exact Hx|].
+          - rewrite vsize_slice in Hn. pose proof (lsize_in l x Hx). lia.
+          - rewrite vdepth_slice in Hd. pose proof (ldepth_in l x Hx). lia. }
         destruct (RTb_list _ _ _ _ _ _ Hall) as [bs [E [L D]]].
         change (encode reg (TSlice t) (VSlice (Some l)))
           with (if max_int32 <? zlen l then EErr else eapp (EOk (le 4 (zlen l))) (enc_list (encode reg t) l)).
@@ -154,8 +194,10 @@ Section All.
         rewrite E. cbn [eapp]. exists (le 4 (zlen l) ++ bs). split; [reflexivity|].
         split; [cbn [minsize]; rewrite app_length, le_length; lia|].
         intros Hl rest. rewrite app_length, le_length in Hl. cbn [rnorm]. rewrite rnorm_list_map. rewrite <- app_assoc.
-        change (decode reg (S f) (TSlice t)) with
-          (dec_slice (match t with TPtr x => 8 + tsize x | TCustom _ => 8 | _ => tsize t end)%N (decode reg (S f) t)).
+        rewrite decode_eq.
+        change (dec_level reg (lrec reg f) (lallow f) (TSlice t)) with
+          (dec_slice (match t with TPtr x => 8 + tsize x | TCustom _ => 8 | _ => tsize t end)%N (dec_level reg (lrec reg f) (lallow f) t)).
+        rewrite <- decode_eq.
         unfold dec_slice. unfold zlen in *.
         eapply decodes_bind; [apply decodes_read_u; rewrite pow8_4; unfold max_int32 in *; lia|].
         replace (Z.of_nat (length l) =? null32) with false by (symmetry; apply Z.eqb_neq; unfold null32, max_int32 in *; lia).
@@ -165,64 +207,78 @@ Section All.
         eapply decodes_bind; [apply decodes_tick|]. rewrite Nat2Z.id.
         eapply decodes_bind; [apply D; lia|apply decodes_ret].
       + eapply RTb_prim; [reflexivity|cbn [minsize]; rewrite le_length; lia|]. intros rest. cbn [rnorm].
-        change (decode reg (S f) (TSlice t)) with
-          (dec_slice (match t with TPtr x => 8 + tsize x | TCustom _ => 8 | _ => tsize t end)%N (decode reg (S f) t)).
+        rewrite decode_eq.
+        change (dec_level reg (lrec reg f) (lallow f) (TSlice t)) with
+          (dec_slice (match t with TPtr x => 8 + tsize x | TCustom _ => 8 | _ => tsize t end)%N (dec_level reg (lrec reg f) (lallow f) t)).
         unfold dec_slice.
         eapply decodes_bind; [apply decodes_read_u; rewrite pow8_4; unfold null32; lia|].
         rewrite Z.eqb_refl. apply decodes_ret.
     - (* pointer *)
-      destruct v; try discriminate. destruct p as [x|]; [|discriminate].
+      intros k. destruct v; try discriminate. destruct p as [x|]; [|discriminate].
       change (rwf reg (TPtr t) (VPtr (Some x))) with (ptr_elem_ok t && rwf reg t x) in Hw.
       apply andb_true in Hw. destruct Hw as [He Hx].
       assert (Hs : (vsize x < n)%nat) by (cbn [vsize] in Hn; lia).
-      pose proof (IH t x Hs Hx (S f)) as Hr. cbn [encode minsize rnorm].
-      change (decode reg (S f) (TPtr t)) with (dec_ptr t (decode reg (S f) t)).
+      assert (Hdx : (vdepth x <= f)%nat) by (cbn [vdepth] in Hd; exact Hd).
+      pose proof (IH t x Hs Hx f Hdx k) as Hr. cbn [encode minsize rnorm].
+      rewrite decode_eq in *.
+      change (dec_level reg (lrec reg f) (lallow f) (TPtr t)) with (dec_ptr t (dec_level reg (lrec reg f) (lallow f) t)).
       unfold dec_ptr. destruct t; try discriminate;
         (apply RTb_tick; apply (RTb_fmap _ _ _ _ _ _ (fun v => VPtr (Some v))); exact Hr).
     - (* struct *)
-      destruct v; try discriminate.
+      intros k. destruct v; try discriminate.
       change (rwf reg (TStruct fs) (VStruct fs0)) with (rwf_struct reg fs fs0) in Hw.
       change (encode reg (TStruct fs) (VStruct fs0)) with (enc_struct (encode reg) fs fs0).
       change (rnorm reg (TStruct fs) (VStruct fs0)) with (VStruct (rnorm_struct reg fs fs0)).
-      change (decode reg (S f) (TStruct fs)) with
-        (bind (dec_fields (map (decode reg (S f)) fs)) (fun vs => ret (VStruct vs))).
+      rewrite decode_eq.
+      change (dec_level reg (lrec reg f) (lallow f) (TStruct fs)) with
+        (bind (dec_fields (map (dec_level reg (lrec reg f) (lallow f)) fs)) (fun vs => ret (VStruct vs))).
+      rewrite <- decode_eq.
       apply (RTb_fmap _ _ _ _ _ _ VStruct). apply RTb_struct; [|exact Hw].
-      intros t x Hin Hwx. apply IH; [|exact Hwx]. rewrite vsize_struct in Hn. pose proof (lsize_in fs0 x Hin). lia.
+      intros t x Hin Hwx. apply IH; [|exact Hwx|].
+      + rewrite vsize_struct in Hn. pose proof (lsize_in fs0 x Hin). lia.
+      + rewrite vdepth_struct in Hd. pose proof (ldepth_in fs0 x Hin). lia.
     - (* hand-written codecs *)
       destruct c.
       + (* Variant *)
-        destruct v; try discriminate. change (decode reg (S f) (TCustom CVariant)) with (dec_variant (decode reg f)).
-        apply RTb_variant; [exact Hw|]. intros p x Ev Hin Hwx. subst value.
-        eapply RTb_weaken; [apply IH; [|exact Hwx]|lia|apply le_n].
-        pose proof (vsize_leaves p x Hin). cbn [vsize] in Hn. lia.
+        intros k. destruct v; try discriminate. cbn [vdepth] in Hd. destruct f as [|f]; [lia|].
+        change (decode reg (S f) (TCustom CVariant)) with (dec_variant (decode reg f)).
+        eapply RTb_weaken; [apply (RTb_variant reg (decode reg f) k); [exact Hw|]|apply le_n|lia].
+        intros p x Ev Hin Hwx. subst value.
+        eapply RTb_weaken; [apply IH; [|exact Hwx|]|apply variant_ty_minsize|apply le_n].
+        * pose proof (vsize_leaves p x Hin). cbn [vsize] in Hn. lia.
+        * pose proof (vdepth_leaves p x Hin). lia.
       + (* DataValue *)
-        destruct v; try discriminate. change (decode reg (S f) (TCustom CDataValue)) with (dec_datavalue (decode reg f)).
-        apply RTb_datavalue; [exact Hw|]. intros x Ev Hwx. subst value.
-        apply (IH (TCustom CVariant)); [|exact Hwx]. cbn [vsize] in Hn. lia.
+        intros k. destruct v; try discriminate. cbn [vdepth] in Hd. destruct f as [|f]; [lia|].
+        change (decode reg (S f) (TCustom CDataValue)) with (dec_datavalue (decode reg f)).
+        eapply RTb_weaken; [apply (RTb_datavalue reg (decode reg f) k); [exact Hw|]|apply le_n|lia].
+        intros x Ev Hb Hwx. subst value. rewrite Hb in Hd.
+        apply (IH (TCustom CVariant)); [|exact Hwx|lia]. cbn [vsize] in Hn. lia.
       + (* DiagnosticInfo *)
-        destruct v; try discriminate. change (decode reg (S f) (TCustom CDiagInfo)) with (dec_diag (decode reg f)).
-        apply RTb_diag; [exact Hw|]. intros x Ev Hwx. subst inner.
-        apply (IH (TCustom CDiagInfo)); [|exact Hwx]. cbn [vsize] in Hn. lia.
-      + match goal with |- RTb _ _ (encode _ ?t _) _ _ => apply (generic_RTk t v eq_refl Hw) end.
+        intros k. destruct v; try discriminate. cbn [vdepth] in Hd. destruct f as [|f]; [lia|].
+        change (decode reg (S f) (TCustom CDiagInfo)) with (dec_diag (decode reg f)).
+        eapply RTb_weaken; [apply (RTb_diag reg (decode reg f) k); [exact Hw|]|apply le_n|lia].
+        intros x Ev Hb Hwx. subst inner. rewrite Hb in Hd.
+        apply (IH (TCustom CDiagInfo)); [|exact Hwx|lia]. cbn [vsize] in Hn. lia.
+      + match goal with |- RTd _ ?t _ => apply (generic_RTd f t v eq_refl Hw) end.
       + (* NodeID *)
-        change (decode reg (S f) (TCustom CNodeID)) with dec_nodeid.
+        intros k. rewrite decode_eq. change (dec_level reg (lrec reg f) (lallow f) (TCustom CNodeID)) with dec_nodeid.
         destruct v; try discriminate. apply RTb_nodeid. exact Hw.
       + (* ExpandedNodeID *)
-        change (decode reg (S f) (TCustom CExpNodeID)) with dec_expnodeid.
+        intros k. rewrite decode_eq. change (dec_level reg (lrec reg f) (lallow f) (TCustom CExpNodeID)) with dec_expnodeid.
         destruct v; try discriminate. apply RTb_expnodeid. exact Hw.
       + (* ExtensionObject *)
-        change (decode reg (S f) (TCustom CExtObj)) with (dec_extobj reg (decode reg f)).
-        destruct v; try discriminate.
-        * destruct p; [discriminate|]. apply RTb_extobj_nil.
-        * destruct tid as [tv|]; [|discriminate]. apply RTb_extobj; [exact Hw|].
-          intros bt bv Eb Ebt Hwb. subst body.
-          eapply RTb_weaken; [apply IH; [|exact Hwb]|lia|apply le_n]. cbn [vsize] in Hn. lia.
-      + match goal with |- RTb _ _ (encode _ ?t _) _ _ => apply (generic_RTk t v eq_refl Hw) end.
+        intros k. destruct v; try discriminate.
+        * destruct p; [discriminate|]. cbn [vdepth] in Hd. destruct f as [|f]; [lia|].
+          change (decode reg (S f) (TCustom CExtObj)) with (dec_extobj reg (decode reg f)).
+          eapply RTb_weaken; [apply (RTb_extobj_nil reg (decode reg f) k)|apply le_n|lia].
+        * destruct tid as [tv|]; [|discriminate]. cbn [vdepth] in Hd. destruct f as [|f]; [lia|].
+          change (decode reg (S f) (TCustom CExtObj)) with (dec_extobj reg (decode reg f)).
+          eapply RTb_weaken; [apply (RTb_extobj reg (decode reg f) k); [exact Hw|]|apply le_n|lia].
+          intros bt bv Eb E0 Ebt Hwb. subst body. rewrite E0 in Hd.
+          eapply RTb_weaken; [apply IH; [|exact Hwb|]|lia|apply le_n]; cbn [vsize] in Hn; lia.
+      + match goal with |- RTd _ ?t _ => apply (generic_RTd f t v eq_refl Hw) end.
   Qed.
 
-  Theorem roundtrip_all : forall t v, rwf reg t v = true -> RTk t v.
-  Proof.
-    intros t v Hw k. destruct k as [|f]; [eapply RTb_zero|]; apply (roundtrip_all_S (S (vsize v)) t v (le_n _) Hw).
-    Unshelve. exact 0%nat.
-  Qed.
+  Theorem roundtrip_all : forall t v f, rwf reg t v = true -> (vdepth v <= f)%nat -> RTd f t v.
+  Proof. intros t v f Hw Hd. apply (roundtrip_depth (S (vsize v)) t v (le_n _) Hw f Hd). Qed.
 End All.
